@@ -100,3 +100,29 @@ func verifTriggerSink[T any](x T) {}
 
 // ghostHas(name, key, elem): membership in a set-valued ghost field.
 func ghostHas(name string, key interface{}, elem string) bool { return false }
+
+// visited(k): inside the invariant of a range loop over a string-keyed map,
+// the key k has been produced by an earlier iteration (proof only).
+func visited(k string) bool { return false }
+
+// forallProbe: in proofs an unbounded quantifier over strings (only ever assumed,
+// from a trusted contract); when the contract is executed as a bounded stand-in
+// it ranges over the probe pool below.
+func forallProbe(p func(string) bool) bool {
+	for _, s := range verifProbes {
+		if !p(s) {
+			verifProbeFailed = s
+			return false
+		}
+	}
+	return true
+}
+
+var verifProbeFailed string
+
+// request paths probed against every template of the pool of newPathExpression's contract
+var verifProbes = []string{
+	"", "/", "//", "/a", "/a/", "/ab", "/a/b", "/a/b/", "/a/b/c", "/a//b", "/b", "/b/a", "/x/b", "/x/y", "/x/y/z",
+	"/v1.0/items/7", "/v1x0/items/7", "/v1.0/items", "/v1.0/items/7/more", "/a b/3", "/a%20b/3", "/a+b/3", "/aab/3", "/x+y", "/xxy", "/x%2By",
+	"/a.json", "/aXjson", "/a(b)/1", "/ab/1", "/a$/1", "/a/1", "/é/1", "/%C3%A9/1", "/a,b;c/1", "/a%2Cb%3Bc/1", "a", "a/b",
+}
